@@ -7,6 +7,7 @@ import (
 	"hash/crc32"
 	"os"
 	"path/filepath"
+	"strings"
 	"testing"
 
 	"github.com/couchbase/nitro"
@@ -135,8 +136,21 @@ func TestC19(t *testing.T) {
 		dir := ScratchDir()
 		defer os.RemoveAll(dir)
 
-		// (a) real writer -> file -> real reader (current format)
+		// (a) real writer -> file -> real reader (current format). The path may already hold an
+		// older backup file (a second backup into the same directory): drawn shorter or longer.
 		path := filepath.Join(dir, "f1")
+		if pre := rapid.IntRange(0, 3).Draw(t, "preexisting"); pre > 0 {
+			ow := db.VerifNewFileWriter()
+			if err := ow.Open(path); err != nil {
+				t.Fatalf("open: %v", err)
+			}
+			nOld := []int{0, 1, 3, 30}[pre]
+			for i := 0; i < nOld; i++ {
+				ow.WriteItem(db.VerifNewItem([]byte(fmt.Sprintf("old-item-%d-%s", i, strings.Repeat("x", i*7%40)))))
+			}
+			ow.Close()
+			desc += fmt.Sprintf(" preexisting=%d", nOld)
+		}
 		fw := db.VerifNewFileWriter()
 		if err := fw.Open(path); err != nil {
 			t.Fatalf("open: %v", err)
